@@ -88,6 +88,29 @@ func LoadEngine(repo, verifDir string) (*Engine, error) {
 			eng.cs.LoadFile(f, p)
 		}
 	}
+	// heap registry: field heaps of every named struct type, element/pointer heaps of named and basic types
+	for _, p := range prog.AllPackages() {
+		sc := p.Pkg.Scope()
+		for _, n := range sc.Names() {
+			tn, ok := sc.Lookup(n).(*types.TypeName)
+			if !ok || tn.IsAlias() {
+				continue
+			}
+			t := tn.Type()
+			if _, isSt := t.Underlying().(*types.Struct); isSt {
+				eng.structLeafHeaps(t, map[string]bool{})
+			} else if _, isIf := t.Underlying().(*types.Interface); !isIf {
+				eng.noteHeap(elemHeapName(t), "elem", t, nil)
+				eng.noteHeap(ptrHeapName(t), "ptr", t, nil)
+			}
+		}
+	}
+	for _, b := range types.Typ {
+		if b.Kind() != types.Invalid && b.Info()&types.IsUntyped == 0 && b.Kind() != types.UnsafePointer {
+			eng.noteHeap(elemHeapName(b), "elem", b, nil)
+			eng.noteHeap(ptrHeapName(b), "ptr", b, nil)
+		}
+	}
 	// index functions
 	for fn := range ssautil.AllFunctions(prog) {
 		if fn.Pkg == nil && fn.Parent() == nil {
@@ -320,10 +343,13 @@ func (eng *Engine) buildVCq(fn *ssa.Function, ct *Contract, qf int) (vc *VC, err
 		penv.old = f.entry
 		bindResults(penv, fn.Signature, r.results)
 		if ct != nil {
+			// clauses are checked in order; each may use the ones before it (they are proved first)
+			Rk := r.R
 			for _, cl := range ct.Ensures {
 				c := penv.trBool(cl.Expr)
-				o := f.obligeAt(r.R, "post", cl.Label+tag, cl.Props, c, r.pos)
+				o := f.obligeAt(Rk, "post", cl.Label+tag, cl.Props, c, r.pos)
 				o.Src = cl.Src
+				Rk = vc.define("R.post", "Bool", and(Rk, c))
 			}
 			if ct.HasMod {
 				eff := eng.contractEffects(ct, fn, fn.Signature)
